@@ -129,6 +129,19 @@ func shapeInstances() []func() interface{} {
 	}
 }
 
+// twoValue: a ShTwo with the fields selected by mask set to random values.
+func twoValue(r *Rng, mask int) *ShTwo {
+	src := &ShTwo{}
+	var frs []fieldRef
+	walkFields(reflect.ValueOf(src).Elem(), &frs)
+	for i, fr := range frs {
+		if mask>>uint(i)&1 == 1 {
+			setRandom(r, fr)
+		}
+	}
+	return src
+}
+
 func fmtEntries(n *Node) string {
 	if n == nil || n.Kind != kMap {
 		return "?"
@@ -141,7 +154,7 @@ func fmtEntries(n *Node) string {
 }
 
 func runC15(r *Run, rng *Rng, thorough bool) {
-	reps := 30
+	reps := 300
 	if thorough {
 		reps = 3000
 	}
@@ -273,24 +286,99 @@ func runC15(r *Run, rng *Rng, thorough bool) {
 			}
 		}
 	}
-	// (2) missing mandatory key / duplicate key
-	{
-		dst := &ShFlat{}
-		err := encoding.PopulateStructFromCBOR(extDM, nMap([2]*Node{nUint(2), nTstr("x")}).Bytes(), dst) // -4 missing
-		r.Case("missing-mandatory", false, "pop flat "+hx(nMap([2]*Node{nUint(2), nTstr("x")}).Bytes()), okErr(err))
-		if err == nil {
-			r.Fail("missing-mandatory", "a missing non-optional key is not an error")
+	// (2) every subset of the entries of a fully populated value: populate succeeds iff no mandatory key is missing,
+	// and then yields the value with exactly the removed optional fields nil (CBOR and JSON; all shapes)
+	for si, mk := range shapeInstances() {
+		src := mk()
+		var frs []fieldRef
+		walkFields(reflect.ValueOf(src).Elem(), &frs)
+		for _, fr := range frs {
+			setRandom(rng, fr)
 		}
-		dup := nMap([2]*Node{nUint(2), nTstr("x")}, [2]*Node{nInt(-4), nUint(1)}, [2]*Node{nUint(2), nTstr("y")}).Bytes()
-		err = encoding.PopulateStructFromCBOR(extDM, dup, &ShFlat{})
-		r.Case("duplicate-key", false, "pop flat "+hx(dup), okErr(err))
-		if err == nil {
-			r.Fail("duplicate-key", "a duplicate key in CBOR input is not an error")
+		nf := len(frs)
+		if nf == 0 {
+			continue
 		}
-		err = encoding.PopulateStructFromJSON([]byte(`{"b":"x"}`), &ShFlat{})
-		r.ImplOnly("missing-mandatory-json", false, "popj flat {b}")
-		if err == nil {
-			r.Fail("missing-mandatory", "a missing non-optional JSON member is not an error")
+		full, err := encoding.SerializeStructToCBOR(extEM, src)
+		jfull, jerr := encoding.SerializeStructToJSON(src)
+		if err != nil || jerr != nil {
+			continue
+		}
+		fn, _, _ := parseNode(full, 0)
+		jt, _ := parseJSONText(jfull)
+		if fn == nil || jt == nil || len(fn.Pairs) != nf || len(jt.Mem) != nf {
+			continue
+		}
+		for mask := 0; mask < 1<<uint(nf); mask++ {
+			if !thorough && nf > 6 && mask%5 != 0 && mask != 1<<uint(nf)-1 {
+				continue
+			}
+			sub := &Node{Kind: kMap}
+			jsub := &JTree{Kind: jObj}
+			missingMandatory := false
+			want := mk()
+			var wfrs []fieldRef
+			walkFields(reflect.ValueOf(want).Elem(), &wfrs)
+			for i, fr := range frs {
+				if mask>>uint(i)&1 == 1 {
+					sub.Pairs = append(sub.Pairs, fn.Pairs[i])
+					jsub.Mem = append(jsub.Mem, jt.Mem[i])
+					wfrs[i].v.Set(fr.v)
+				} else if !fr.omit {
+					missingMandatory = true
+				}
+			}
+			class := fmt.Sprintf("subset/shape%d", si)
+			in := sub.Bytes()
+			dst := mk()
+			var perr error
+			pan, _ := safely(func() { perr = encoding.PopulateStructFromCBOR(extDM, in, dst) })
+			if si == 0 || si == 2 {
+				r.Case(class, false, fmt.Sprintf("pop %s %s", map[int]string{0: "flat", 2: "two"}[si], hx(in)), okErr(perr))
+			} else {
+				r.ImplOnly(class, false, fmt.Sprintf("pop shape%d %s", si, hx(in)))
+			}
+			switch {
+			case pan:
+				r.Fail("populate-panics", fmt.Sprintf("PopulateStructFromCBOR panicked on %x", in))
+			case missingMandatory && perr == nil:
+				r.Fail("missing-mandatory", fmt.Sprintf("shape %d: a missing non-optional key is not an error (CBOR input %x)", si, in))
+			case !missingMandatory && perr != nil:
+				r.Fail("roundtrip", fmt.Sprintf("shape %d: populate rejects %x although every non-optional key is present: %v", si, in, perr))
+			case !missingMandatory && !reflect.DeepEqual(want, dst):
+				r.Fail("roundtrip", fmt.Sprintf("shape %d: populate of %x does not give the expected value", si, in))
+			}
+			jin := []byte(jsub.Text())
+			jdst := mk()
+			var jperr error
+			jpan, _ := safely(func() { jperr = encoding.PopulateStructFromJSON(jin, jdst) })
+			r.ImplOnly(class+"/json", false, fmt.Sprintf("popj shape%d %s", si, jin))
+			switch {
+			case jpan:
+				r.Fail("populate-panics", fmt.Sprintf("PopulateStructFromJSON panicked on %s", jin))
+			case missingMandatory && jperr == nil:
+				r.Fail("missing-mandatory", fmt.Sprintf("shape %d: a missing non-optional member is not an error (JSON input %s)", si, jin))
+			case !missingMandatory && jperr != nil:
+				r.Fail("roundtrip-json", fmt.Sprintf("shape %d: populate rejects %s although every non-optional member is present: %v", si, jin, jperr))
+			case !missingMandatory && !reflect.DeepEqual(want, jdst):
+				r.Fail("roundtrip-json", fmt.Sprintf("shape %d: populate of %s does not give the expected value", si, jin))
+			}
+			// a duplicated entry is an error in CBOR input (whichever entry is repeated, wherever it is put)
+			if len(sub.Pairs) > 0 && mask%3 == 0 {
+				di := rng.Intn(len(sub.Pairs))
+				dupn := &Node{Kind: kMap, Pairs: append(append([][2]*Node{}, sub.Pairs...), sub.Pairs[di])}
+				din := dupn.Bytes()
+				var derr error
+				dpan, _ := safely(func() { derr = encoding.PopulateStructFromCBOR(extDM, din, mk()) })
+				if si == 0 || si == 2 {
+					r.Case(class+"/duplicate", false, fmt.Sprintf("pop %s %s", map[int]string{0: "flat", 2: "two"}[si], hx(din)), okErr(derr))
+				} else {
+					r.ImplOnly(class+"/duplicate", false, fmt.Sprintf("pop shape%d %s", si, hx(din)))
+				}
+				if dpan || derr == nil {
+					r.Fail("duplicate-key", fmt.Sprintf("shape %d: duplicate key in CBOR input %x: panic=%v err=%v", si, din, dpan, derr))
+				}
+			}
 		}
 	}
 	// (3) header boundaries through the ordered map (hook) and through synthetic flat structs
